@@ -214,7 +214,12 @@ def emit_tftpd(env):
                 return node
         txt = '\n'.join(ast.unparse(Strip().visit(n)) for n in body)
         return hashlib.sha256(txt.encode()).hexdigest()[:16]
-    for cls, fn in (('TFTPClientState', 'negotiate'), ('TFTPHandler', 'handle'), ('TFTPHandler', 'finish'),
+    # the reply buffer is per handler object: no class-level wfile / rfile, setup() creates them
+    th = find_class(t, 'TFTPHandler')
+    shared = any(isinstance(n, (ast.Assign, ast.AnnAssign)) and any(ast.unparse(x) in ('wfile', 'rfile', 'packet')
+                 for x in (n.targets if isinstance(n, ast.Assign) else [n.target])) for n in th.body)
+    L.append(f'Definition handler_buffers_per_request : bool := {coq_bool(not shared)}.')
+    for cls, fn in (('TFTPClientState', 'negotiate'), ('TFTPHandler', 'setup'), ('TFTPHandler', 'handle'), ('TFTPHandler', 'finish'),
                     ('TFTPBaseHandler', 'do_RRQ'), ('TFTPBaseHandler', 'do_ERROR'),
                     ('TFTPSubHandler', 'handle'), ('TFTPSubHandler', 'finish'), ('TFTPSubHandler', 'do_ACK'),
                     ('TFTPSubHandler', 'do_ERROR'), ('TFTPSubServers', 'add'), ('TFTPSubServers', '_remove'),
